@@ -45,7 +45,11 @@ class Work:
         late = sc.get("subscribe_after", 0) if sc["via"] == "replay" else 0
 
         def subscribe():
-            out.subscribe(lambda v: enter("N", v), lambda e: enter("E"), lambda: enter("C"))
+            # optionally with a subscribe-time scheduler of its own (an immediate / current-thread one): deliveries still belong on
+            # the scheduler observe_on / the subject was given
+            from reactivex.scheduler import CurrentThreadScheduler, ImmediateScheduler
+            ss = {None: None, "immediate": ImmediateScheduler(), "current": CurrentThreadScheduler()}[sc.get("sub_sched")]
+            out.subscribe(lambda v: enter("N", v), lambda e: enter("E"), lambda: enter("C"), scheduler=ss)
 
         if not late:
             subscribe()
@@ -100,7 +104,7 @@ class Prop:
         if t:
             ev.append([t])
         via = rng.choice(["observe_on", "observe_on", "replay"])
-        sc = {"via": via, "scheduler": rng.choice(["eventloop", "eventloop", "newthread"]), "events": ev,
+        sc = {"via": via, "scheduler": rng.choice(["eventloop", "eventloop", "newthread"]), "events": ev, "sub_sched": rng.choice([None, None, "immediate", "current"]),
               "sched": th.gen_sched(rng, spurious_p=0.3, sweep_p=0.02, stall_p=0.3)}
         if via == "replay":
             sc["buffer_size"] = rng.choice([None, None, 1, 2])
